@@ -1,3 +1,539 @@
-/-! # C13 — property theorems (stub: not built yet) -/
+import PymtlVerif.Proofs.Names
+/-!
+# C13 — translation is deterministic and module names never alias different hardware
+
+Property theorems about `Model/Names.lean`.
+
+What is proved here
+* `wfModules_sound` / `wfModules_complete`: the Boolean checker that the harness runs on the module table scanned
+  from emitted text decides exactly `DefinedOnce ∧ Closed ∧ LegalUniqueIds`.
+* the component table of `translate_component` as the code is NOW: `table_first_wins`, `table_defined_once`,
+  `table_closed`, `table_from_instances`; `no_alias_iff_names_injective`: every instance gets its own body **iff**
+  names are injective on bodies; `alias_witness` (finding F7: two classes with the same `__name__`),
+  `param_image_alias_witness` (same class, `1` vs `"1"`), `illegal_name_witness` (`-1` as a parameter).
+* the proposed repair `translateChecked`: `checked_no_alias`, `checked_ok_iff_injective`, `checked_error_sound`.
+* names: `fullName_inj`, `uniqueName_inj` (same class, same parameter names, separator-free values: different
+  values never collide — through the hashed path as well, assuming the hash has no collision and is hexadecimal),
+  `uniqueName_idShape` (when the emitted name is a legal identifier).
+* determinism of the model's orders: `post_perm_invariant`, `portOrder_perm_invariant`, `blockOrder_perm_invariant`
+  (the emitted order does not depend on the order in which children / ports / blocks are enumerated).
+
+What is NOT a theorem: independence of the text from `PYTHONHASHSEED` and from earlier translations in the same
+process is a property of CPython and of the whole translator; it is covered by the correspondence check only
+(byte equality across fresh processes).
+-/
 namespace PV.C13
+open PV.Names
+
+/-! ## the module-table checker -/
+
+/-- `[A-Za-z_][A-Za-z0-9_$]*` and not a reserved word -/
+def LegalId (s : String) : Prop :=
+  (∃ c cs, s.toList = c :: cs ∧ isIdStart c = true ∧ ∀ x ∈ cs, isIdChar x = true) ∧ s ∉ verilogReserved
+
+/-- every module name and every typedef name is defined once -/
+def DefinedOnce (t : ModTable) : Prop := t.names.Nodup ∧ t.typedefs.Nodup
+
+/-- every instantiated module is defined in the table -/
+def Closed (t : ModTable) : Prop := ∀ m ∈ t.modules, ∀ i ∈ m.insts, ∃ d ∈ t.modules, d.name = i.1
+
+/-- identifiers are legal and unique in their scope (instance names are among the module's identifiers) -/
+def LegalUniqueIds (t : ModTable) : Prop :=
+  (∀ x ∈ t.typedefs, LegalId x) ∧
+  ∀ m ∈ t.modules, LegalId m.name ∧ (∀ x ∈ m.ids, LegalId x) ∧ m.ids.Nodup ∧ ∀ i ∈ m.insts, i.2 ∈ m.ids
+
+theorem isIdStart_iff (c : Char) :
+    isIdStart c = true ↔ ('a' ≤ c ∧ c ≤ 'z') ∨ ('A' ≤ c ∧ c ≤ 'Z') ∨ c = '_' := by
+  simp only [isIdStart, Char.isAlpha, Char.isUpper, Char.isLower, Bool.or_eq_true, Bool.and_eq_true,
+    decide_eq_true_eq, beq_iff_eq, ge_iff_le]
+  constructor
+  · rintro ((h | h) | h)
+    · exact Or.inr (Or.inl h)
+    · exact Or.inl h
+    · exact Or.inr (Or.inr h)
+  · rintro (h | h | h)
+    · exact Or.inl (Or.inr h)
+    · exact Or.inl (Or.inl h)
+    · exact Or.inr h
+
+theorem legalId_iff (s : String) : legalId s = true ↔ LegalId s := by
+  unfold legalId LegalId idShape
+  cases hs : s.toList with
+  | nil => simp
+  | cons c cs =>
+    simp only [Bool.and_eq_true, List.all_eq_true, Bool.not_eq_true', List.cons.injEq]
+    constructor
+    · rintro ⟨⟨h1, h2⟩, h3⟩
+      refine ⟨⟨c, cs, ⟨rfl, rfl⟩, h1, h2⟩, ?_⟩
+      intro hm
+      rw [List.contains_iff_mem.mpr hm] at h3
+      exact Bool.noConfusion h3
+    · rintro ⟨⟨c', cs', ⟨rfl, rfl⟩, h1, h2⟩, h3⟩
+      refine ⟨⟨h1, h2⟩, ?_⟩
+      cases hc : verilogReserved.contains s with
+      | false => rfl
+      | true => exact absurd (List.contains_iff_mem.mp hc) h3
+
+theorem wfModules_iff (t : ModTable) :
+    wfModules t = true ↔ DefinedOnce t ∧ Closed t ∧ LegalUniqueIds t := by
+  unfold wfModules DefinedOnce Closed LegalUniqueIds
+  simp only [Bool.and_eq_true, nodupB_iff, List.all_eq_true, legalId_iff, wfModule, List.contains_iff_mem]
+  constructor
+  · rintro ⟨⟨⟨h1, h2⟩, h3⟩, h4⟩
+    refine ⟨⟨h1, h2⟩, ?_, h3, ?_⟩
+    · intro m hm i hi
+      have := ((h4 m hm).2 i hi).1
+      simpa [ModTable.names] using this
+    · intro m hm
+      obtain ⟨⟨⟨a, b⟩, c⟩, d⟩ := h4 m hm
+      exact ⟨a, b, c, fun i hi => (d i hi).2⟩
+  · rintro ⟨⟨h1, h2⟩, hc, h3, h4⟩
+    refine ⟨⟨⟨h1, h2⟩, h3⟩, ?_⟩
+    intro m hm
+    obtain ⟨a, b, c, d⟩ := h4 m hm
+    refine ⟨⟨⟨a, b⟩, c⟩, ?_⟩
+    intro i hi
+    refine ⟨?_, d i hi⟩
+    have := hc m hm i hi
+    simpa [ModTable.names] using this
+
+/-- The checker accepts only tables in which every module (and typedef) is defined once, every instantiated
+module is defined, and identifiers are legal, not reserved, and unique per module scope. -/
+theorem wfModules_sound (t : ModTable) (h : wfModules t = true) :
+    DefinedOnce t ∧ Closed t ∧ LegalUniqueIds t := (wfModules_iff t).mp h
+
+/-- … and it accepts all of them (so a rejected table really violates one of the three clauses). -/
+theorem wfModules_complete (t : ModTable) (h : DefinedOnce t ∧ Closed t ∧ LegalUniqueIds t) :
+    wfModules t = true := (wfModules_iff t).mpr h
+
+/-! ## the component table of `translate_component`, as the code is now -/
+
+section table
+variable {β : Type}
+
+/-- `components[name]` is the body of the FIRST instance of the post-order walk that has this name. -/
+theorem table_first_wins (is : List (String × β)) (n : String) :
+    (translateAll is).lookup n = is.lookup n := lookup_translateAll is n
+
+/-- the emitted table defines every module name once … -/
+theorem table_defined_once (is : List (String × β)) : ((translateAll is).map (·.1)).Nodup :=
+  keys_nodup_translateAll is
+
+/-- … defines the name of every instance (so every instantiated module is defined) … -/
+theorem table_closed (is : List (String × β)) (e : String × β) (he : e ∈ is) :
+    ∃ b, (translateAll is).lookup e.1 = some b ∧ (e.1, b) ∈ is := by
+  obtain ⟨b', h1, h2⟩ := lookup_of_mem is e.1 e.2 he
+  exact ⟨b', by rw [table_first_wins]; exact h1, h2⟩
+
+/-- … and contains nothing but (name, body) pairs of instances. -/
+theorem table_from_instances (is : List (String × β)) (e : String × β) (h : e ∈ translateAll is) : e ∈ is :=
+  mem_translateAll is e h
+
+/-- names injective on bodies ⇒ no instance is given another instance's body -/
+theorem no_alias_if_names_injective (is : List (String × β))
+    (hinj : ∀ a ∈ is, ∀ b ∈ is, a.1 = b.1 → a.2 = b.2) :
+    ∀ e ∈ is, (translateAll is).lookup e.1 = some e.2 := by
+  intro e he
+  obtain ⟨b, h1, h2⟩ := table_closed is e he
+  have hb : b = e.2 := hinj (e.1, b) h2 e he rfl
+  rw [h1, hb]
+
+/-- two instances with one name and different bodies ⇒ one of them silently gets the other body -/
+theorem alias_if_not_injective (is : List (String × β)) (a b : String × β) (ha : a ∈ is) (hb : b ∈ is)
+    (hn : a.1 = b.1) (hne : a.2 ≠ b.2) :
+    ∃ e ∈ is, ∃ w, (translateAll is).lookup e.1 = some w ∧ w ≠ e.2 := by
+  obtain ⟨w, h1, _⟩ := table_closed is a ha
+  by_cases hw : w = a.2
+  · refine ⟨b, hb, w, by rw [← hn]; exact h1, ?_⟩
+    rw [hw]; exact hne
+  · exact ⟨a, ha, w, h1, hw⟩
+
+/-- The walk as it is aliases exactly when names are not injective on bodies. -/
+theorem no_alias_iff_names_injective (is : List (String × β)) :
+    (∀ e ∈ is, (translateAll is).lookup e.1 = some e.2) ↔ (∀ a ∈ is, ∀ b ∈ is, a.1 = b.1 → a.2 = b.2) := by
+  constructor
+  · intro h a ha b hb hn
+    have h1 := h a ha
+    have h2 := h b hb
+    rw [hn, h2] at h1
+    injection h1 with h1
+    exact h1.symm
+  · exact no_alias_if_names_injective is
+
+/-- the tree form: the table of a hierarchy is the table of its post-order walk (children by `repr`) -/
+theorem tree_first_wins (t : Tree β) (n : String) : (translateTree t).lookup n = t.post.lookup n :=
+  table_first_wins t.post n
+
+end table
+
+/-! ### Finding F7 and its relatives, as theorems about the code as it is -/
+
+/-- short names without special characters are used as they are -/
+theorem uniqueName_plain (H : String → String) (cls : String) (ps : List (String × String))
+    (h : ((fullName cls ps).length < 64 && !hasSpecial (fullName cls ps)) = true) :
+    uniqueName H cls ps = fullName cls ps := by
+  unfold uniqueName uniqueNameWith
+  simp only
+  rw [if_pos h]
+
+theorem uniqueName_noparam_inner (H : String → String) : uniqueName H "Inner" [] = "Inner_noparam" := by
+  rw [uniqueName_plain H "Inner" [] (by decide)]
+  decide
+
+/-- **F7.** Two classes that share `__name__` (`Inner`, no parameters) and differ in behaviour (bodies 1 and 2):
+the module name depends on the class *name* and parameters only, so both instances are `Inner_noparam`; the
+table holds ONE definition, and instance `b` silently gets the body of instance `a`. -/
+theorem alias_witness (H : String → String) :
+    ∃ (is : List (String × Nat)) (a b : String × Nat), a ∈ is ∧ b ∈ is ∧ a.1 = b.1 ∧ a.2 ≠ b.2 ∧
+      (translateAll is).map (·.1) = ["Inner_noparam", "Top_noparam"] ∧
+      (translateAll is).lookup b.1 = some a.2 := by
+  refine ⟨[(uniqueName H "Inner" [], 1), (uniqueName H "Inner" [], 2), ("Top_noparam", 0)],
+    (uniqueName H "Inner" [], 1), (uniqueName H "Inner" [], 2), by simp, by simp, rfl, by simp, ?_, ?_⟩
+  · rw [uniqueName_noparam_inner]; decide
+  · rw [uniqueName_noparam_inner]; decide
+
+/-- Different parameter values with the same `str()` image: the int `1` and the string `"1"`. -/
+theorem param_image_collision (H : String → String) :
+    PVal.int 1 ≠ PVal.str "1" ∧ PVal.image H (.int 1) = PVal.image H (.str "1") := by
+  constructor
+  · intro h
+    cases h
+  · simp only [PVal.image]
+    decide
+
+/-- Same class, parameter `1` vs `"1"`: one module name, hence (by `alias_if_not_injective`) aliasing whenever the
+two bodies differ. -/
+theorem param_image_alias_witness (H : String → String) :
+    uniqueName H "Inner" (images H [("p", .int 1)]) = uniqueName H "Inner" (images H [("p", .str "1")]) := by
+  have : images H [("p", .int 1)] = images H [("p", .str "1")] := by
+    simp only [images, List.map_cons, List.map_nil, (param_image_collision H).2]
+  rw [this]
+
+/-- A negative integer parameter yields a module name that is not an identifier (`Inner__p_-1`). -/
+theorem illegal_name_witness (H : String → String) :
+    uniqueName H "Inner" (images H [("p", .int (-1))]) = "Inner__p_-1" ∧ idShape "Inner__p_-1" = false := by
+  have hi : images H [("p", .int (-1))] = [("p", "-1")] := by
+    simp only [images, List.map_cons, List.map_nil, PVal.image]
+    decide
+  constructor
+  · rw [hi, uniqueName_plain H "Inner" [("p", "-1")] (by decide)]
+    decide
+  · decide
+
+/-! ## the repaired walk (`translateChecked`) -/
+
+section repaired
+variable {β : Type} [DecidableEq β]
+
+/-- If the repaired walk succeeds, it built the same table as the present code and NO instance is aliased. -/
+theorem checked_no_alias (is : List (String × β)) (t : Table β) (h : translateChecked is = .ok t) :
+    t = translateAll is ∧ ∀ e ∈ is, t.lookup e.1 = some e.2 := by
+  obtain ⟨h1, h2⟩ := checkedFrom_ok [] t is h
+  exact ⟨h1, h2⟩
+
+/-- If it fails, two instances really share the reported name and differ in body. -/
+theorem checked_error_sound (is : List (String × β)) (n : String) (h : translateChecked is = .error n) :
+    ∃ b b', (n, b) ∈ is ∧ (n, b') ∈ is ∧ b ≠ b' := by
+  obtain ⟨b, b', h1, h2, h3⟩ := checkedFrom_error [] is n h
+  exact ⟨b, b', by simpa using h1, by simpa using h2, h3⟩
+
+/-- The repair is conservative: it succeeds (with the unchanged table) exactly on the designs whose names are
+injective on bodies, i.e. exactly where the present code is already right. -/
+theorem checked_ok_iff_injective (is : List (String × β)) :
+    translateChecked is = .ok (translateAll is) ↔ (∀ a ∈ is, ∀ b ∈ is, a.1 = b.1 → a.2 = b.2) := by
+  constructor
+  · intro h
+    exact (no_alias_iff_names_injective is).mp (checked_no_alias is _ h).2
+  · intro hinj
+    cases h : translateChecked is with
+    | ok t => rw [(checked_no_alias is t h).1]
+    | error n =>
+      obtain ⟨b, b', h1, h2, h3⟩ := checked_error_sound is n h
+      exact absurd (hinj (n, b) h1 (n, b') h2 rfl) h3
+
+end repaired
+
+/-! ## names -/
+
+/-- **Same class, different parameter values never collide** (full name): for one class — hence the same ordered
+parameter names — and values whose images contain no `__` and do not end in `_`. -/
+theorem fullName_inj (cls : String) (ps ps' : List (String × String))
+    (hk : ps.map (·.1) = ps'.map (·.1))
+    (hv : ∀ kv ∈ ps, NoSep kv.2) (hv' : ∀ kv ∈ ps', NoSep kv.2)
+    (h : fullName cls ps = fullName cls ps') : ps = ps' := by
+  rw [fullName_eq, fullName_eq] at h
+  have h2 := congrArg String.toList h
+  simp only [String.toList_append, List.append_cancel_left_eq] at h2
+  exact nameTail_inj ps ps' hk hv hv' (String.toList_inj.mp h2)
+
+/-- The same through the length / "is the full name usable" test and the hashed form, whatever that test is, for
+a hash without collisions whose digests contain no `_` (hexadecimal). -/
+theorem uniqueNameWith_inj (ok : String → Bool) (H : String → String) (hH : ∀ s s', H s = H s' → s = s')
+    (hhex : ∀ s, '_' ∉ (H s).toList)
+    (cls : String) (ps ps' : List (String × String))
+    (hk : ps.map (·.1) = ps'.map (·.1))
+    (hv : ∀ kv ∈ ps, NoSep kv.2) (hv' : ∀ kv ∈ ps', NoSep kv.2)
+    (h : uniqueNameWith ok H cls ps = uniqueNameWith ok H cls ps') : ps = ps' := by
+  unfold uniqueNameWith at h
+  simp only at h
+  have strip : ∀ (x y : String), cls ++ x = cls ++ y → x = y := by
+    intro x y e
+    have := congrArg String.toList e
+    simp only [String.toList_append, List.append_cancel_left_eq] at this
+    exact String.toList_inj.mp this
+  by_cases c1 : ((fullName cls ps).length < 64 && ok (fullName cls ps)) = true
+  · by_cases c2 : ((fullName cls ps').length < 64 && ok (fullName cls ps')) = true
+    · rw [if_pos c1, if_pos c2] at h
+      exact fullName_inj cls ps ps' hk hv hv' h
+    · rw [if_pos c1, if_neg c2] at h
+      rw [fullName_eq, String.append_assoc] at h
+      exact absurd (strip _ _ h) (nameTail_ne_hashed ps _ (hhex _))
+  · by_cases c2 : ((fullName cls ps').length < 64 && ok (fullName cls ps')) = true
+    · rw [if_neg c1, if_pos c2] at h
+      rw [fullName_eq, String.append_assoc] at h
+      exact absurd (strip _ _ h.symm) (nameTail_ne_hashed ps' _ (hhex _))
+    · rw [if_neg c1, if_neg c2] at h
+      rw [String.append_assoc, String.append_assoc] at h
+      have h3 := strip _ _ h
+      have h4 : H (nameTail ps) = H (nameTail ps') := by
+        have := congrArg String.toList h3
+        simp only [String.toList_append, List.append_cancel_left_eq] at this
+        exact String.toList_inj.mp this
+      exact nameTail_inj ps ps' hk hv hv' (hH _ _ h4)
+
+/-- `get_component_unique_name` as it is: same class, different parameter values never collide -/
+theorem uniqueName_inj (H : String → String) (hH : ∀ s s', H s = H s' → s = s')
+    (hhex : ∀ s, '_' ∉ (H s).toList)
+    (cls : String) (ps ps' : List (String × String))
+    (hk : ps.map (·.1) = ps'.map (·.1))
+    (hv : ∀ kv ∈ ps, NoSep kv.2) (hv' : ∀ kv ∈ ps', NoSep kv.2)
+    (h : uniqueName H cls ps = uniqueName H cls ps') : ps = ps' :=
+  uniqueNameWith_inj _ H hH hhex cls ps ps' hk hv hv' h
+
+/-- … and the same for the repaired name function -/
+theorem uniqueNameR_inj (H : String → String) (hH : ∀ s s', H s = H s' → s = s')
+    (hhex : ∀ s, '_' ∉ (H s).toList)
+    (cls : String) (ps ps' : List (String × String))
+    (hk : ps.map (·.1) = ps'.map (·.1))
+    (hv : ∀ kv ∈ ps, NoSep kv.2) (hv' : ∀ kv ∈ ps', NoSep kv.2)
+    (h : uniqueNameR H cls ps = uniqueNameR H cls ps') : ps = ps' :=
+  uniqueNameWith_inj _ H hH hhex cls ps ps' hk hv hv' h
+
+theorem nameTail_idChars (ps : List (String × String))
+    (hp : ∀ kv ∈ ps, (∀ c ∈ kv.1.toList, isIdChar c = true) ∧ (∀ c ∈ kv.2.toList, isIdChar c = true)) :
+    ∀ c ∈ (nameTail ps).toList, isIdChar c = true := by
+  have hs : ∀ (ps : List (String × String)),
+      (∀ kv ∈ ps, (∀ c ∈ kv.1.toList, isIdChar c = true) ∧ (∀ c ∈ kv.2.toList, isIdChar c = true)) →
+      ∀ c ∈ (suffix ps).toList, isIdChar c = true := by
+    intro ps
+    induction ps with
+    | nil => intro _ c hc; simp [suffix] at hc
+    | cons kv ps ih =>
+      obtain ⟨k, v⟩ := kv
+      intro hp c hc
+      rw [suffix_cons_toList] at hc
+      simp only [List.mem_cons, List.mem_append] at hc
+      have hu : isIdChar '_' = true := by decide
+      rcases hc with rfl | rfl | hc | rfl | hc | hc
+      · exact hu
+      · exact hu
+      · exact (hp (k, v) (by simp)).1 c hc
+      · exact hu
+      · exact (hp (k, v) (by simp)).2 c hc
+      · exact ih (fun kv hkv => hp kv (List.mem_cons_of_mem _ hkv)) c hc
+  cases ps with
+  | nil =>
+    intro c hc
+    have : (nameTail []).toList = ['_', 'n', 'o', 'p', 'a', 'r', 'a', 'm'] := by decide
+    rw [this] at hc
+    revert c
+    decide
+  | cons kv ps =>
+    simp only [nameTail, List.isEmpty_cons, Bool.false_eq_true, if_false]
+    exact hs _ hp
+
+/-- When is the emitted module name an identifier: the class name is one, parameter names and value images consist
+of identifier characters, and so do the digests. (`illegal_name_witness`: the condition on values is needed.) -/
+theorem uniqueName_idShape (H : String → String) (hH : ∀ s, ∀ c ∈ (H s).toList, isIdChar c = true)
+    (cls : String) (ps : List (String × String)) (hc : idShape cls = true)
+    (hp : ∀ kv ∈ ps, (∀ c ∈ kv.1.toList, isIdChar c = true) ∧ (∀ c ∈ kv.2.toList, isIdChar c = true)) :
+    idShape (uniqueName H cls ps) = true := by
+  have ext : ∀ (r : String), (∀ c ∈ r.toList, isIdChar c = true) → idShape (cls ++ r) = true := by
+    intro r hr
+    unfold idShape at hc ⊢
+    rw [String.toList_append]
+    cases hl : cls.toList with
+    | nil => rw [hl] at hc; simp at hc
+    | cons c cs =>
+      rw [hl] at hc
+      simp only [Bool.and_eq_true, List.all_eq_true] at hc
+      simp only [List.cons_append, Bool.and_eq_true, List.all_eq_true, List.mem_append]
+      exact ⟨hc.1, fun x hx => hx.elim (hc.2 x) (hr x)⟩
+  unfold uniqueName uniqueNameWith
+  simp only
+  split
+  · rw [fullName_eq]; exact ext _ (nameTail_idChars ps hp)
+  · rw [String.append_assoc]
+    apply ext
+    intro c hc'
+    rw [String.toList_append] at hc'
+    simp only [List.mem_append] at hc'
+    rcases hc' with hc' | hc'
+    · have : "__".toList = ['_', '_'] := by decide
+      rw [this] at hc'
+      simp only [List.mem_cons, List.not_mem_nil, or_false] at hc'
+      rcases hc' with rfl | rfl <;> decide
+    · exact hH _ c hc'
+
+/-- The repaired name function emits an identifier for EVERY parameter list (class name an identifier, digests
+made of identifier characters): no condition on the values is left. -/
+theorem uniqueNameR_idShape (H : String → String) (hH : ∀ s, ∀ c ∈ (H s).toList, isIdChar c = true)
+    (cls : String) (ps : List (String × String)) (hc : idShape cls = true) :
+    idShape (uniqueNameR H cls ps) = true := by
+  unfold uniqueNameR uniqueNameWith
+  simp only
+  split
+  · next h =>
+    simp only [Bool.and_eq_true] at h
+    exact h.2
+  · unfold idShape at hc ⊢
+    rw [String.append_assoc, String.toList_append]
+    cases hl : cls.toList with
+    | nil => rw [hl] at hc; simp at hc
+    | cons c cs =>
+      rw [hl] at hc
+      simp only [Bool.and_eq_true, List.all_eq_true] at hc
+      simp only [List.cons_append, Bool.and_eq_true, List.all_eq_true, List.mem_append, String.toList_append]
+      refine ⟨hc.1, fun x hx => ?_⟩
+      rcases hx with hx | hx | hx
+      · exact hc.2 x hx
+      · have : "__".toList = ['_', '_'] := by decide
+        rw [this] at hx
+        simp only [List.mem_cons, List.not_mem_nil, or_false] at hx
+        rcases hx with rfl | rfl <;> decide
+      · exact hH _ x hx
+
+theorem hasSpecial_not_idShape (f : String) (h : hasSpecial f = true) : idShape f = false := by
+  unfold hasSpecial at h
+  unfold idShape
+  have key : ∀ c, specialChars.contains c = true → isIdStart c = false ∧ isIdChar c = false := by
+    intro c hc
+    have hm := List.contains_iff_mem.mp hc
+    simp only [specialChars, List.mem_cons, List.not_mem_nil, or_false] at hm
+    rcases hm with rfl | rfl | rfl | rfl | rfl | rfl <;> decide
+  cases hl : f.toList with
+  | nil => rfl
+  | cons c cs =>
+    rw [hl] at h
+    simp only [List.any_cons, Bool.or_eq_true, List.any_eq_true] at h
+    rcases h with h | ⟨x, hx, hx2⟩
+    · simp [(key c h).1]
+    · have : cs.all isIdChar = false := by
+        rw [List.all_eq_false]
+        exact ⟨x, hx, by simp [(key x hx2).2]⟩
+      simp [this]
+
+/-- The repair changes no name that was an identifier already. -/
+theorem uniqueNameR_conservative (H : String → String) (cls : String) (ps : List (String × String))
+    (h : idShape (uniqueName H cls ps) = true) :
+    uniqueNameR H cls ps = uniqueName H cls ps := by
+  unfold uniqueNameR uniqueName uniqueNameWith at *
+  simp only at *
+  by_cases c1 : ((fullName cls ps).length < 64 && !hasSpecial (fullName cls ps)) = true
+  · rw [if_pos c1] at h ⊢
+    simp only [Bool.and_eq_true] at c1
+    rw [if_pos (by simp [c1.1, h])]
+  · rw [if_neg c1]
+    by_cases c2 : ((fullName cls ps).length < 64 && idShape (fullName cls ps)) = true
+    · exfalso
+      simp only [Bool.and_eq_true] at c2
+      apply c1
+      simp only [Bool.and_eq_true, c2.1, true_and, Bool.not_eq_true']
+      cases hs : hasSpecial (fullName cls ps) with
+      | false => rfl
+      | true => rw [hasSpecial_not_idShape _ hs] at c2; exact absurd c2.2 (by simp)
+    · rw [if_neg c2]
+
+/-! ## determinism of the model's orders -/
+
+/-- The order in which `translate_component` reaches the instances — hence which body wins and the order of the
+emitted modules — does not depend on the order in which the children are enumerated (they come out of a Python
+`set`): any permutation of the children, each with an unchanged walk, gives the same walk, when their `repr`s are
+distinct. -/
+theorem post_perm_invariant {β : Type} (r n : String) (b : β) (cs cs' : List (Tree β))
+    (hp : (postKids cs).Perm (postKids cs'))
+    (hd : ∀ x ∈ postKids cs, ∀ y ∈ postKids cs, x.1 = y.1 → x = y) :
+    (Tree.node r n b cs).post = (Tree.node r n b cs').post := by
+  simp only [Tree.post]
+  rw [sortByKey_perm_eq (fun kv => kv.1) _ _ hp hd]
+
+theorem postKids_eq_map {β : Type} (cs : List (Tree β)) : postKids cs = cs.map (fun c => (c.repr, c.post)) := by
+  induction cs with
+  | nil => simp [postKids]
+  | cons c cs ih => simp [postKids, ih]
+
+/-- in particular: permuting the children themselves -/
+theorem post_children_perm {β : Type} (r n : String) (b : β) (cs cs' : List (Tree β)) (hp : cs.Perm cs')
+    (hd : ∀ x ∈ cs, ∀ y ∈ cs, x.repr = y.repr → x = y) :
+    (Tree.node r n b cs).post = (Tree.node r n b cs').post := by
+  apply post_perm_invariant
+  · rw [postKids_eq_map, postKids_eq_map]; exact hp.map _
+  · intro x hx y hy hxy
+    rw [postKids_eq_map] at hx hy
+    simp only [List.mem_map] at hx hy
+    obtain ⟨cx, hcx, rfl⟩ := hx
+    obtain ⟨cy, hcy, rfl⟩ := hy
+    have := hd cx hcx cy hcy hxy
+    rw [this]
+
+/-- port order of a module does not depend on the enumeration order of ports and interfaces -/
+theorem portOrder_perm_invariant (ports ports' : List String) (ifcs ifcs' : List Ifc)
+    (hp : ports.Perm ports') (hi : (flatKids ifcs).Perm (flatKids ifcs'))
+    (hd : ∀ x ∈ flatKids ifcs, ∀ y ∈ flatKids ifcs, x.1 = y.1 → x = y) :
+    portOrder ports ifcs = portOrder ports' ifcs' := by
+  unfold portOrder
+  rw [sortByKey_perm_eq id _ _ hp (fun a _ b _ h => h), sortByKey_perm_eq (fun kv => kv.1) _ _ hi hd]
+
+/-- block order of a module does not depend on the enumeration order of the update blocks -/
+theorem blockOrder_perm_invariant (comb comb' seq seq' : List String)
+    (hc : comb.Perm comb') (hs : seq.Perm seq') : blockOrder comb seq = blockOrder comb' seq' := by
+  unfold blockOrder
+  rw [sortByKey_perm_eq id _ _ hc (fun a _ b _ h => h), sortByKey_perm_eq id _ _ hs (fun a _ b _ h => h)]
+
+/-! ## non-vacuity -/
+
+/-- a table the checker accepts … -/
+example : wfModules ⟨["S__a_4"], [⟨"Inner_noparam", ["clk", "in_", "out", "up"], []⟩,
+    ⟨"Top_noparam", ["clk", "a", "a__clk"], [("Inner_noparam", "a")]⟩]⟩ = true := by decide
+/-- … and ones it rejects: a module defined twice, an undefined instantiated module, a reserved word, a duplicate -/
+example : wfModules ⟨[], [⟨"A", [], []⟩, ⟨"A", [], []⟩]⟩ = false := by decide
+example : wfModules ⟨[], [⟨"T", ["a"], [("Missing", "a")]⟩]⟩ = false := by decide
+example : wfModules ⟨[], [⟨"T", ["logic"], []⟩]⟩ = false := by decide
+example : wfModules ⟨[], [⟨"T", ["x", "x"], []⟩]⟩ = false := by decide
+example : wfModules ⟨[], [⟨"Inner__p_-1", [], []⟩]⟩ = false := by decide
+/-- the hypotheses of `fullName_inj` are satisfiable, and needed: with a separator inside a value two different
+parameter lists collide -/
+example : NoSep "Bits32" := by
+  constructor
+  · intro p q h
+    have : "Bits32".toList = ['B', 'i', 't', 's', '3', '2'] := by decide
+    rw [this] at h
+    have hm : '_' ∈ p ++ '_' :: '_' :: q := by simp
+    rw [← h] at hm
+    revert hm; decide
+  · intro p h
+    have : "Bits32".toList = ['B', 'i', 't', 's', '3', '2'] := by decide
+    rw [this] at h
+    have hm : '_' ∈ p ++ ['_'] := by simp
+    rw [← h] at hm
+    revert hm; decide
+example : fullName "C" [("a", "1__b_2"), ("b", "3")] = fullName "C" [("a", "1"), ("b", "2__b_3")] := by decide
+/-- first-wins on a walk with a repeated name; the repaired walk refuses it, and accepts equal bodies -/
+example : translateAll [("A", 1), ("A", 2), ("T", 0)] = [("A", 1), ("T", 0)] := by decide
+example : translateChecked [("A", 1), ("A", 2), ("T", 0)] = .error "A" := by rfl
+example : translateChecked [("A", 1), ("A", 1), ("T", 0)] = .ok [("A", 1), ("T", 0)] := by rfl
+/-- children are visited in `repr` order (`s.x[10]` before `s.x[2]`), whatever order they are given in -/
+example : (Tree.node "s" "T" 0 [.node "s.x[2]" "B" 2 [], .node "s.x[10]" "A" 1 []]).post = [("A", 1), ("B", 2), ("T", 0)] := by
+  decide
+
 end PV.C13
